@@ -312,6 +312,31 @@ example : ∃ st' out, runPre NumberedLines.St.init ["define flow a".toList] = .
 
 
 open NemoVerif.NumberedLines in
+/-- Positive specification, general form: a block of `# …` comment lines and blank lines in ANY order, then an ordinary statement - the
+    statement's record carries the gathered comment (`commentOf`: consecutive comment lines joined with `"\n"`), and by `commentOf_blank`
+    the blank lines of the block are irrelevant for it. -/
+theorem numbered_lines_comments_attach (pre post block : List Str) (stmt : Str)
+    (st' : NumberedLines.St) (out : List Rec) (hpre : runPre NumberedLines.St.init pre = .ok (st', out))
+    (hB : st'.atBoundary = true) (hml : st'.mlComment = false)
+    (hblock : ∀ l ∈ block, strip l = [] ∨ ∃ c, strip l = '#' :: c) (hs : plainStmt (strip stmt) = true) :
+    numbered (pre ++ (block ++ stmt :: post)) =
+      (run { st' with comment := none, pending := none } post).map fun rest =>
+        out ++ { text := firstPart (strip stmt), indentation := lead stmt, comment := commentOf st'.comment block } :: rest :=
+  numbered_comments_attach pre post block stmt st' out hpre hB hml hblock hs
+
+open NemoVerif.NumberedLines in
+/-- non-vacuity + the gathered comment of `# Greet the user,` / `` / `# warmly.` (finite fact). -/
+example : (∀ l ∈ ["  # Greet the user,".toList, [], "  # warmly.".toList], strip l = [] ∨ ∃ c, strip l = '#' :: c) ∧
+    commentOf none ["  # Greet the user,".toList, [], "  # warmly.".toList] = some "Greet the user,\nwarmly.".toList := by
+  refine ⟨?_, by decide⟩
+  intro l hl
+  simp only [List.mem_cons, List.mem_nil_iff, or_false] at hl
+  rcases hl with rfl | rfl | rfl
+  · exact Or.inr ⟨" Greet the user,".toList, by decide⟩
+  · exact Or.inl (by decide)
+  · exact Or.inr ⟨" warmly.".toList, by decide⟩
+
+open NemoVerif.NumberedLines in
 /-- kernel-checked witnesses (finite facts) that the hypothesis `atBoundary` of `numbered_lines_blank` is needed: a blank line between a line
     ending in ` or` and its continuation, or inside a multi-line string, changes the records. -/
 theorem numbered_lines_blank_boundary_witness :
